@@ -32,6 +32,10 @@ WORKS = collections.OrderedDict([
     ("macwith", ("{{ h2() }}", [KM, KP])),
     ("inc", ("{% include 'leaf' %}", [KI])),
     ("imp", ("{% import 'leaf' as lf %}", [KP, KI])),
+    ("inclist", ("{% include ['nope.html', 'leaf'] ignore missing %}", [KI])),
+    ("incvar", ("{% set lf = ['leaf'] %}{% include lf %}", [KI])),
+    ("incmissing", ("{% include ['nope.html', 'nope2.html'] ignore missing %}", None)),
+    ("from", ("{% from 'leaflib' import lm %}{{ lm() }}", [KP, KI, None, KM])),
     ("blk", ("{{ self.leaf() }}", [KB])),
     ("blkwith", ("{{ self.leaf2() }}", [KB, KP])),
     ("callh", ("{% call w() %}c{% endcall %}", [KM, KM])),
@@ -51,6 +55,82 @@ WRAPS = collections.OrderedDict([
     ("autoescape", ("{% autoescape true %}", "{% endautoescape %}", [])),
 ])
 PLAIN_WRAPS = ["with", "for", "recfor1", "if", "filter", "set", "autoescape"]
+
+# Every SPELLING of each recursion edge: template text (@T@ template name, @N@ macro name, @B@ block name) and the
+# accounting operations the spelling itself adds in front of the edge.  All spellings of a kind must be charged alike:
+# the level comparison checks "depth the engine charged = depth of the model" for each of them.
+SPELL = {
+    "inc": collections.OrderedDict([
+        ("str", ("{% include '@T@' %}", [])),
+        ("list", ("{% include ['@T@'] %}", [])),
+        ("fallback", ("{% include ['nope.html', '@T@'] %}", [])),
+        ("fallback_ignore", ("{% include ['nope.html', '@T@'] ignore missing %}", [])),
+        ("ignore", ("{% include '@T@' ignore missing %}", [])),
+        ("tuple", ("{% include ('nope.html', '@T@') %}", [])),
+        ("var", ("{% set nm = '@T@' %}{% include nm %}", [])),
+        ("varlist", ("{% set nl = ['nope.html', '@T@'] %}{% include nl %}", [])),
+        ("computed", ("{% include ['@T@', 'zz']|first %}", [])),
+        ("iter_select", ("{% include ['nope.html', '@T@']|select('string') %}", [])),
+        ("iter_map", ("{% include ['nope.html', '@T@']|map('string') %}", [])),
+        ("reversed", ("{% include ['@T@', 'nope.html']|reverse %}", [])),
+        ("with_context", ("{% include '@T@' with context %}", [])),
+        ("without_context", ("{% include ['@T@'] without context %}", [])),
+        ("ignore_with_context", ("{% include ['nope', '@T@'] ignore missing with context %}", [])),
+        ("context_ignore", ("{% include ['nope', '@T@'] with context ignore missing %}", [])),
+    ]),
+    "imp": collections.OrderedDict([
+        ("import", ("{% import '@T@' as im %}", [])),
+        ("import_list", ("{% import ['nope.html', '@T@'] as im %}", [])),
+        ("import_var", ("{% set nm = '@T@' %}{% import nm as im %}", [])),
+        ("import_context", ("{% import '@T@' as im with context %}", [])),
+        # (from-import renders the imported template with its output discarded: a discarded {{ self.name() }} or
+        #  {% block %} is skipped by the VM, so these spellings are used in programs without block edges only)
+        ("from", ("{% from '@T@' import z0 %}", [])),
+        ("from_as", ("{% from '@T@' import z0 as zq, h %}", [])),
+        ("from_list", ("{% from ['@T@'] import z0 %}", [])),
+        ("from_context", ("{% from '@T@' import z0 without context %}", [])),
+    ]),
+    "mac": collections.OrderedDict([
+        ("call", ("{{ @N@() }}", [])),
+        ("var", ("{% set fn = @N@ %}{{ fn() }}", [])),
+        ("item", ("{{ [@N@][0]() }}", [])),
+        ("attr", ("{{ {'f': @N@}.f() }}", [])),
+        ("filter_input", ("{{ @N@()|upper }}", [])),
+        ("in_list", ("{{ [@N@()]|join }}", [])),
+        ("concat", ("{{ @N@() ~ '' }}", [])),
+        ("condition", ("{% if @N@() %}{% endif %}", [])),
+        ("set", ("{% set v = @N@() %}", [])),
+        ("ternary", ("{{ 'a' if @N@() else 'b' }}", [])),
+        ("for_iterable", ("{% for q in [@N@()] %}{% endfor %}", [])),
+        ("do", ("{% do @N@() %}", [])),
+        ("filter_arg", ("{{ '%s'|format(@N@()) }}", [])),
+        ("kwargs", ("{{ @N@(**{}) }}", [])),
+        ("splat", ("{{ @N@(*[]) }}", [])),
+        ("test_arg", ("{{ 1 is eq(@N@()) }}", [])),
+        ("subscript", ("{{ {'a': 1}[@N@()] }}", [])),
+        ("with_value", ("{% with q = @N@() %}{% endwith %}", [[1, KP]])),
+    ]),
+    "call": collections.OrderedDict([
+        ("call", ("{% call @N@() %}.{% endcall %}", [])),
+        ("call_args", ("{% call(a) @N@() %}{{ a }}{% endcall %}", [])),
+        ("call_var", ("{% set fn = @N@ %}{% call fn() %}.{% endcall %}", [])),
+    ]),
+    "blk": collections.OrderedDict([
+        ("self", ("{{ self.@B@() }}", [])),
+        ("self_set", ("{% set v = self.@B@() %}", [])),
+        ("self_filter", ("{{ self.@B@()|upper }}", [])),
+        ("self_condition", ("{% if self.@B@() %}{% endif %}", [])),
+        ("self_in_list", ("{{ [self.@B@()]|join }}", [])),
+        ("inline", (None, [])),     # the {% block %} tag itself, where the calling level stands (when it may stand there)
+    ]),
+}
+FROM_SPELLS = ("from", "from_as", "from_list", "from_context")
+SUPER_SPELL = collections.OrderedDict([("fast", "{{ super() }}"), ("set", "{% set v = super() %}"), ("filter", "{{ super()|upper }}"),
+                                       ("condition", "{% if super() %}{% endif %}")])
+LOOP_SPELL = collections.OrderedDict([("fast", "{{ loop(x) }}"), ("set", "{% set v = loop(x) %}"), ("filter", "{{ loop(x)|upper }}"),
+                                      ("alias", "{% set rl = loop %}{{ rl(x) }}"), ("condition", "{% if loop(x) %}{% endif %}")])
+EXTENDS_SPELL = collections.OrderedDict([("literal", "{% extends '@C@' %}"), ("variable", "{% set pn = '@C@' %}{% extends pn %}"),
+                                         ("computed", "{% extends ['@C@']|first %}"), ("concat", "{% extends '@C@' ~ '' %}")])
 
 HEADER = ("{% macro z0() %}{{ z0 }}{% endmacro %}{% macro h() %}x{% endmacro %}"
           "{% macro h2() %}{% with a=1 %}{{ a }}{% endwith %}{% endmacro %}"
